@@ -111,7 +111,8 @@ def _request(op, a):
   if op == 9:
     return 'CheckTrialEarlyStoppingState', vs.CheckTrialEarlyStoppingStateRequest(trial_name=tn)
   if op == 10:
-    return 'CreateStudy', vs.CreateStudyRequest(parent=svc.OWNER, study=study_pb2.Study(display_name='other', study_spec=svc.spec()))
+    return 'CreateStudy', vs.CreateStudyRequest(parent='owners/fresh' if a else svc.OWNER,
+                                                study=study_pb2.Study(display_name='other', study_spec=svc.spec()))
   raise AssertionError(op)
 
 
@@ -171,6 +172,18 @@ def _crash(op, t1, t2, ops, a, k, args):
         again = _full(sv2)
         ok = ok and e is None and again['s'] is not None and again['s']['trials'] == {} and again['ops'] == {'w': [], 'v': []}
         got = again
+      if op == 10:
+        # a study that can be fetched is listed under its owner; the client retries its CreateStudy and ends up with
+        # exactly one such study
+        name = req.parent + '/studies/other'
+        _, e1 = svc.call(sv2.GetStudy, vs.GetStudyRequest(name=name))
+        lst, e2 = svc.call(sv2.ListStudies, vs.ListStudiesRequest(parent=req.parent))
+        listed = e2 is None and name in [s_.name for s_ in lst.studies]
+        ok = ok and ((e1 is None) == listed)
+        again, e3 = svc.call(sv2.CreateStudy, _request(op, a)[1])      # (a fresh request: the first call filled in study.name)
+        ok = ok and e3 is None and again.name == name
+        lst, e2 = svc.call(sv2.ListStudies, vs.ListStudiesRequest(parent=req.parent))
+        ok = ok and e2 is None and [s_.name for s_ in lst.studies].count(name) == 1
       tag = '%s@%d/%d:%s' % (method, k, n_events, ''.join(rec.events))
       if not ok:
         reach('bad:' + method)
@@ -237,10 +250,10 @@ def crash_multi(op: int, t1: int, t2: bool, ops: bool, a: bool, k: int) -> bool:
   post: _
   """
   op, a = conc(op, 8, 10), cbool(a)
+  if op == 9 and a:
+    return True                 # (`a`: SuggestTrials count 2 / CreateStudy for an owner that does not exist yet)
   sl = os.environ.get('VERIF_SLICE')
-  if sl is not None and (op - 8) * 2 + (1 if a else 0) != int(sl) and not (op != 8 and (op - 8) * 2 == int(sl)):
+  if sl is not None and (op - 8) * 2 + (1 if a else 0) != int(sl):
     return True
   t1, t2, ops, k = conc(t1, 0, 4), cbool(t2), cbool(ops), conc(k, 0, 24)
-  if op != 8 and a:
-    return True
   return _crash(op, t1, 1 if t2 else 0, 1 if ops else 0, a, k, (op, t1, t2, ops, a, k))
